@@ -13,7 +13,9 @@ import SphericalVerif.Model.Matrix
     definitionally, `Model.rotateMatrixEntry` when the weights and the 𝔇 array are the model's arrays (`gen_rotate_matrix_is_model`).  Hence
     `Props/Matrix` (`rotateMatrix_eq_sum`, `rotateMatrix_eq_horner`, `rotate_block_contiguous`: the slices are aligned, the matrix route equals
     the Horner route and Σ_n f_{ℓn} 𝔇^ℓ_{nm} in exact arithmetic) speaks about the code as written: a wrong slice bound, block offset, stride
-    or transposition in the text changes the fold proved here. -/
+    or transposition in the text changes the fold proved here.  The matrix branch of `Wigner.evaluate` (slice bounds `ell_lo, i1, j1, n` and
+    `np.matmul(mode_weights[:, i1:i1+n], Y[j1:j1+n], …)`) is generated and identified with `Model.evaluateMatrix` the same way
+    (`gen_evaluate_matrix_cell`, `gen_evaluate_matrix_is_model`; `Props/Matrix.evaluateMatrix_eq_sum / _eq_horner / eval_slices_*`). -/
 namespace GenRotM
 open Gen GenDiff Model
 
@@ -92,5 +94,26 @@ theorem gen_rotate_matrix_is_model {μ : Type} [Mem μ α] (stm : μ) (f za zg :
         (fun i => cget (DArray (α := α) stm za zg cmin cmp cmax) i.toNat) 1 0 0 st) A ((ell : Int) * ((ell : Int) + 1) + m)
       = rotateMatrixEntry (α := α) stm f za zg cmin cmp cmax ell m := by
   rw [gen_rotate_matrix_cell _ _ A cmin cmax cmp L sw st ell m hm hl hs, colSum_is_model]
+
+/-! ### the matrix branch of `Wigner.evaluate` (the default strategy of `evaluate`), from the source -/
+
+/-- the generated contraction for one row of weights (row 0) writes `Model.dotSlices` over the slices `Model.evalMatrixSlices` computes — the
+    slice bounds `ell_lo, i1, j1, n` are the text's own expressions (modes stored from ℓ = 0) -/
+theorem gen_evaluate_matrix_cell (f Y : Array (Cx α)) (fv : Nat) (cmin modesL : Int) (st : φ) :
+    frdC (α := α) (Gen.Wigner_evaluate_matrix_contract (α := α) (fun i => cget f i.toNat) (fun i => cget Y i.toNat) fv cmin 0 modesL 1 0 st) fv 0
+      = dotSlices (α := α) f Y (evalMatrixSlices cmin modesL).1 (evalMatrixSlices cmin modesL).2.1 (evalMatrixSlices cmin modesL).2.2.toNat := by
+  unfold Gen.Wigner_evaluate_matrix_contract dotSlices evalMatrixSlices
+  have e1 : ((1 : Int) - 0).toNat = 1 := rfl
+  have e2 : Int.toNat 1 = 1 := rfl
+  simp only [e1, e2, loopN, Nat.cast_zero, Int.zero_add, Int.add_zero, Int.zero_mul, Int.sub_zero, GenFill.frdC_fwrC_same]
+  rfl
+
+/-- hence, with `Y` the array `self.sYlm(…, out=Y)` leaves (the model's `sYlmArray`), the generated matrix branch computes `Model.evaluateMatrix` -/
+theorem gen_evaluate_matrix_is_model {μ : Type} [Mem μ α] (stm : μ) (f za : Array (Cx α)) (zgpow : Cx α) (sw : Int) (fv : Nat) (cmin cmax modesL : Int) (st : φ) :
+    frdC (α := α) (Gen.Wigner_evaluate_matrix_contract (α := α) (fun i => cget f i.toNat)
+        (fun i => cget (sYlmArray (α := α) stm za zgpow sw cmin cmax) i.toNat) fv cmin 0 modesL 1 0 st) fv 0
+      = evaluateMatrix (α := α) stm f za zgpow sw cmin cmax modesL := by
+  rw [gen_evaluate_matrix_cell]
+  rfl
 end
 end GenRotM
